@@ -7,6 +7,7 @@ from ..fold import NotConst, ObjEnv, exec_block, _Return
 from ..model import AnalysisError, U, walk_no_nested, parent, ancestors
 
 P15 = ("C15",)
+P15_03 = ("C15", "C03")
 
 
 # ------------------------------------------------------------ common facts
@@ -185,7 +186,7 @@ def r04_cache_key(ctx):
         if f.qual not in trans:
             rep.ok(rule, key, site,
                    "memoised %s does not read mode-dependent calendar state "
-                   "(directly or through callees)" % f.qual, P15)
+                   "(directly or through callees)" % f.qual, P15_03)
             continue
         callsites = [(q, e) for q, e in res.callers_of(f.qual)
                      if e.kind == "call"]
@@ -195,7 +196,7 @@ def r04_cache_key(ctx):
                 rule, key, site,
                 "memoised %s reads mode-dependent state (%s) and has no "
                 "call site binding a key parameter to the live mode" % (
-                    f.qual, " -> ".join(chain_to_read(ctx, f.qual))), P15,
+                    f.qual, " -> ".join(chain_to_read(ctx, f.qual))), P15_03,
                 witness=chain_to_read(ctx, f.qual))
             continue
         good_param = None
@@ -231,7 +232,7 @@ def r04_cache_key(ctx):
                 "site (%s)" % (f.qual,
                                " -> ".join(chain_to_read(ctx, f.qual)),
                                bad_detail or "no parameters"),
-                P15, witness=chain_to_read(ctx, f.qual))
+                P15_03, witness=chain_to_read(ctx, f.qual))
             continue
         keyed_ok[f.qual] = good_param
         # the key must be read in a function that is itself not memoised, or
@@ -245,7 +246,7 @@ def r04_cache_key(ctx):
                "memoised %s reads %s; parameter %r is bound to the live "
                "CALENDAR.mode at all %d call sites" % (
                    f.qual, " -> ".join(chain_to_read(ctx, f.qual)[1:]) or
-                   "mode state", good_param, len(callsites)), P15)
+                   "mode state", good_param, len(callsites)), P15_03)
     for f, caller, node in keyed_ok.pop("_pending", []):
         ckey = ctx.fkey(caller, node, "key-read-in-memoised")
         rep.check(caller.qual in keyed_ok, rule, ckey, caller.loc(node),
@@ -253,7 +254,7 @@ def r04_cache_key(ctx):
                   "mode" % caller.qual,
                   "the mode key of %s is read inside memoised %s, which is "
                   "not keyed on the mode (the read is frozen by the outer "
-                  "cache)" % (f.qual, caller.qual), P15)
+                  "cache)" % (f.qual, caller.qual), P15_03)
     # aliases: a cached function must only be referenced as a callee
     names = {f.name: f for f in cached if f.cls is None}
     for m in ctx.model.modules.values():
@@ -270,7 +271,7 @@ def r04_cache_key(ctx):
                     rule, ctx.mkey(m.name, "alias of " + n.id),
                     m.loc(n), "memoised mode-reading %s is referenced other "
                     "than as a direct callee (reachable under another name, "
-                    "so its call sites cannot be enumerated)" % f.qual, P15)
+                    "so its call sites cannot be enumerated)" % f.qual, P15_03)
 
 
 # -------------------------------------------------------------------- R05
